@@ -80,7 +80,10 @@ impl Profile {
                 ..base
             },
             "retain" => Profile {
-                w_ops: [35, 25, 10, 5, 2, 18, 5],
+                w_ops: [34, 30, 8, 4, 1, 18, 5],
+                max_size: 5,
+                max_ops: 24,
+                max_actions: 110,
                 ..base
             },
             "timeouts" => Profile {
@@ -143,8 +146,15 @@ fn gen_spec(rng: &mut Rng, p: &Profile, w: &World) -> Option<Spec> {
         3 => Spec::Resize(rng.below(w.cfg.max + 3)),
         4 => Spec::Close,
         5 => {
-            let n = rng.below(4);
-            Spec::Retain((0..n).map(|_| rng.chance(50)).collect())
+            // a predicate script as long as the idle queue (sometimes shorter / longer)
+            let idle = w.pool.verif_snapshot(|_, _| {}).slots.map(|x| x.2).unwrap_or(2);
+            let n = match rng.below(4) {
+                0 => rng.below(4),
+                1 => idle + 1,
+                _ => idle,
+            };
+            let p_keep = *rng.pick(&[0usize, 30, 50, 70]);
+            Spec::Retain((0..n).map(|_| rng.chance(p_keep)).collect())
         }
         _ => Spec::Status,
     })
